@@ -1401,6 +1401,49 @@ func runC03() {
 			originals = append(originals, it)
 		}
 	}
+	// nested builtins: a builtin inside the closure of another one over a collection of ANOTHER element
+	// type, with the outer element used before and after it (the checker's collections stack must be
+	// popped by every builtin)
+	{
+		var nested []string
+		bs := []string{"all", "none", "any", "one", "filter", "map", "count"}
+		pred := map[string]string{"AI": "# > 0", "AS": `# startsWith "a"`, "AF": "# < 1.5"}
+		use := map[string]string{"AI": "# + 1", "AS": `# + "x"`, "AF": "# * 2.0"}
+		for _, outer := range bs {
+			for _, inner := range bs {
+				for _, cs := range [][2]string{{"AI", "AS"}, {"AS", "AI"}, {"AF", "AS"}, {"AI", "AF"}} {
+					oc, ic := cs[0], cs[1]
+					in := fmt.Sprintf("%s(%s, {%s})", inner, ic, pred[ic])
+					switch inner {
+					case "count":
+						in += " >= 0"
+					case "filter":
+						in = "len(" + in + ") >= 0"
+					case "map":
+						in = fmt.Sprintf("len(map(%s, {%s})) >= 0", ic, use[ic])
+					}
+					body := fmt.Sprintf("%s and %s", in, pred[oc])
+					if rng.Intn(2) == 0 {
+						body = fmt.Sprintf("%s and %s and %s", pred[oc], in, pred[oc])
+					}
+					if outer == "map" {
+						body = fmt.Sprintf("%s ? %s : #", in, use[oc])
+					}
+					nested = append(nested, fmt.Sprintf("%s(%s, {%s})", outer, oc, body))
+				}
+			}
+		}
+		rng.Shuffle(len(nested), func(i, j int) { nested[i], nested[j] = nested[j], nested[i] })
+		if *tier != "thorough" && len(nested) > 40 {
+			nested = nested[:40]
+		}
+		for _, s := range nested {
+			it := item{src: s, w: wU, fam: "nested builtins"}
+			if push(it) {
+				originals = append(originals, it)
+			}
+		}
+	}
 	nOrig := len(items)
 	for _, o := range originals {
 		for _, m := range c03Mutants(o.src) {
